@@ -24,7 +24,9 @@ const NOW: u64 = 1_700_000_000;
 
 #[derive(Default)]
 struct UnitSet {
-    seen: HashMap<([u8; 8], Vec<u8>), &'static str>,
+    seen: HashMap<([u8; 8], Vec<u8>), (&'static str, u64)>,
+    /// units seen so far per (key, kind): the position of a unit within its own counter sequence
+    per_key: HashMap<([u8; 8], &'static str), u64>,
     count: u64,
 }
 
@@ -32,11 +34,21 @@ impl UnitSet {
     /// Returns the colliding pair description if (key, nonce) was seen before.
     fn add(&mut self, u: Unit) -> Option<(String, &'static str, &'static str)> {
         self.count += 1;
+        let pos = {
+            let e = self.per_key.entry((u.key_fp, u.what)).or_insert(0);
+            *e += 1;
+            *e - 1
+        };
         let k = (u.key_fp, u.nonce.clone());
-        if let Some(prev) = self.seen.get(&k) {
+        if let Some((prev, prev_pos)) = self.seen.get(&k) {
+            // VMess numbers its chunks with a 16-bit counter: chunk k and chunk k+65536 of one direction share a nonce
+            // by protocol definition (the property exempts "the counter width the protocol itself defines")
+            if u.what.starts_with("vmess") && *prev == u.what && pos > *prev_pos && (pos - *prev_pos) % 65536 == 0 {
+                return None;
+            }
             return Some((format!("key_fp={} nonce={}", hex(&u.key_fp), hex(&u.nonce)), *prev, u.what));
         }
-        self.seen.insert(k, u.what);
+        self.seen.insert(k, (u.what, pos));
         None
     }
 }
@@ -212,7 +224,7 @@ fn long_session(seed: u64, proto: Proto, rep: &mut Report) {
     let mut rng = Rng::derive(seed, 0xC12A, 0);
     let cfg = Cfg::random(&mut rng, proto, 0);
     let chunks: usize = match proto {
-        Proto::Vmess(_) => 65_535, // the 16-bit counter is defined by the protocol; its wrap is exempt
+        Proto::Vmess(_) => 66_000, // past the 16-bit counter wrap (exempt by protocol); anything but an exact wrap is reuse
         _ => 70_000,
     };
     let mut units = Vec::new();
